@@ -295,4 +295,34 @@ VARIANTS = [
         {"file": BC, "old": "            self._send_prepared_message(msg)\n\n    def send_acks",
          "new": "            yield msg\n\n    def resend_unacked(self):\n        for due in self._due():\n"
                 "            self.send(due)\n\n    def send_acks"}]},
+    # ------------------------------------------------------------------ round 7
+    {"name": "P R4 removal + completion shared by one helper", "expect": "silent", "edits": [
+        {"file": BC, "old": "            resend_info = self.unacked_reliable.pop((~message.direction, ack), None)\n"
+                            "            if resend_info:\n                resend_info.completed.set_result(None)\n",
+         "new": "            self._finish((~message.direction, ack))\n"},
+        {"file": BC, "old": "                del self.unacked_reliable[(msg.direction, msg.packet_id)]\n"
+                            "                resend_info.completed.set_exception(TimeoutError(\"Exceeded resend limit\"))\n",
+         "new": "                self._finish((msg.direction, msg.packet_id), TimeoutError(\"Exceeded resend limit\"))\n"},
+        {"file": BC, "old": "    def resend_unacked(self):\n", "new": "    def _finish(self, key, exc=None):\n        info = self.unacked_reliable.pop(key, None)\n        if info is None:\n            return\n        if exc is not None:\n            info.completed.set_exception(exc)\n        else:\n            info.completed.set_result(None)\n\n    def resend_unacked(self):\n"}]},
+    {"name": "R4 shared helper keeps entries whose future was cancelled", "expect": "C05.R4", "edits": [
+        {"file": BC, "old": "            resend_info = self.unacked_reliable.pop((~message.direction, ack), None)\n"
+                            "            if resend_info:\n                resend_info.completed.set_result(None)\n",
+         "new": "            self._finish((~message.direction, ack))\n"},
+        {"file": BC, "old": "                del self.unacked_reliable[(msg.direction, msg.packet_id)]\n"
+                            "                resend_info.completed.set_exception(TimeoutError(\"Exceeded resend limit\"))\n",
+         "new": "                self._finish((msg.direction, msg.packet_id), TimeoutError(\"Exceeded resend limit\"))\n"},
+        {"file": BC, "old": "    def resend_unacked(self):\n", "new": "    def _finish(self, key, exc=None):\n        info = self.unacked_reliable.get(key)\n        if info is None or info.completed.cancelled():\n            return\n        del self.unacked_reliable[key]\n        if exc is not None:\n            info.completed.set_exception(exc)\n        else:\n            info.completed.set_result(None)\n\n    def resend_unacked(self):\n"}]},
+    {"name": "P R4 per-entry resend work in a helper behind a due test", "expect": "silent", "edits": [
+        {"file": BC, "old": "            msg = copy.copy(resend_info.message)\n", "new": "            self._retry(resend_info)\n\n"
+                            "    def _retry(self, resend_info):\n        if True:\n            msg = copy.copy(resend_info.message)\n"},
+        {"file": BC, "old": "                continue\n            resend_info.last_resent = dt.datetime.now()\n",
+         "new": "                return\n            resend_info.last_resent = dt.datetime.now()\n"}]},
+    {"name": "P R2 PacketAck branch behind guard clauses on the name", "file": PC, "expect": "silent",
+     "old": "            if message.name == \"PacketAck\":\n"
+            "                if not self._rewrite_packet_ack(message, reverse_injections) and not message.acks:\n",
+     "new": "            if message.name != \"StartPingCheck\" and message.name == \"PacketAck\":\n"
+            "                if not self._rewrite_packet_ack(message, reverse_injections) and not message.acks:\n"},
+    {"name": "P R6 walks over a local alias of the deque", "expect": "silent", "edits": [
+        {"file": PC, "old": "        for packet_id in self.injections:\n            if new_id < packet_id and new_id not in self.injections:\n",
+         "new": "        inj = self.injections\n        for packet_id in inj:\n            if new_id < packet_id and new_id not in inj:\n"}]},
 ]
